@@ -33,6 +33,8 @@ def main():
         if only and sid not in only:
             continue
         meta = json.load(open(os.path.join(d, "meta.json")))
+        if shutil.disk_usage("/tmp").free < 30 << 30:
+            subprocess.run(["go", "clean", "-cache"], check=False)
         tmp = tempfile.mkdtemp(prefix="seeded-")
         try:
             repo = os.path.join(tmp, "repo")
